@@ -18,6 +18,7 @@ From stdpp Require Import gmap.
 From Coq Require Import NArith.
 From Synnax Require Import Aspen.Pledge Aspen.PledgeQuorum Aspen.PledgeProofs Aspen.PledgeWitness.
 From Synnax Require Import Monitors.Mon_C11 Monitors.Mon_C11_Sound.
+From Synnax Require Import Aspen.PledgeCluster Aspen.PledgeClusterProofs.
 Local Open Scope N_scope.
 
 (* (1) A run decides for a key only with a full quorum: the jurors it consulted in its
@@ -63,6 +64,18 @@ Theorem C11_cluster_key : forall pmax ck0 ms s,
   (forall p k c, result_of s p = Some (k, c) -> c = ck0).
 Proof. exact cluster_key_uniform. Qed.
 Print Assumptions C11_cluster_key.
+
+(* (3b) The same clause at the level of cluster.Open, over every script of bootstrap /
+   join through any member / close / reopen-from-storage (Aspen/PledgeCluster.v; a reopened
+   member arbitrates with the cluster key in its store, a joined node with the one it
+   received): every cluster that opens — bootstrapper, joiner through a never-restarted,
+   a restarted or a joined member, reopened node — holds the bootstrapper's cluster key
+   ck0, and so does every store at the end. *)
+Theorem C11_cluster_key_lifecycle : forall ck0 (sc : cscript),
+  Forall (fun ob : cobs => ob.1.1 = true -> ob.2 = ck0) (crun ck0 ∅ sc) /\
+  (forall i n, cfinal ck0 ∅ sc !! i = Some n -> cn_ck n = ck0).
+Proof. exact cluster_key_lifecycle. Qed.
+Print Assumptions C11_cluster_key_lifecycle.
 
 (* (4) Juror memory: in every reachable state the approvals a juror has returned are for
    pairwise different keys, each is remembered, and each was above every key the juror
